@@ -1013,6 +1013,13 @@ class UnitQuaternion(Quaternion):
     def _identity():
         return base.eye()
 
+    def _import(self, x, check=True):
+        # any 4-vector is acceptable here, the constructor normalises it
+        if isinstance(x, np.ndarray) and x.shape == (4,):
+            return x
+        else:
+            return None
+
     @staticmethod
     def isvalid(x, check=True):
         """
